@@ -1,7 +1,8 @@
 Require Extraction.
 Require Import ExtrOcamlBasic.
 From GoPdf.Base Require Import WireAnchor.
-From GoPdf.C17 Require Import KeyTree KeyTreeInst.
+From GoPdf.C17 Require Import KeyTree KeyTreeInst KeyGraph KeyGraphInst.
 Separate Extraction wire_anchor
   name_write name_lookup name_all name_extract name_mem_lookup name_mem_all name_tree_ok
-  num_write num_lookup num_all num_extract num_mem_lookup num_mem_all num_tree_ok.
+  num_write num_lookup num_all num_extract num_mem_lookup num_mem_all num_tree_ok
+  name_g_lookup name_g_all name_g_extract num_g_lookup num_g_all num_g_extract name_heap_size num_heap_size.
